@@ -659,6 +659,25 @@ func (pl *plan) build() {
 		}
 		pl.streams = append(pl.streams, nodeStream("node-k", pl, chWorkflow, ts))
 	}
+	// (i-a') EVERY position of the synthetic every-key workflow x the collections that carry the tag
+	// of another kind (a sequence / mapping tagged !!null, !!str, ...): the places where a mapping
+	// that may be empty, a null or a scalar is expected are not value-parser positions
+	{
+		b := pl.bases[chWorkflow][0]
+		var ts []triple
+		for si, sb := range pl.subs {
+			if !strings.Contains(sb.name, "-tagged:") {
+				continue
+			}
+			if quick && !(strings.HasSuffix(sb.name, ":!!null") || strings.HasSuffix(sb.name, ":!!str")) {
+				continue
+			}
+			for pi := 1; pi < len(b.positions); pi++ {
+				ts = append(ts, triple{0, pi, si, 0})
+			}
+		}
+		pl.streams = append(pl.streams, nodeStream("node-tagged", pl, chWorkflow, ts))
+	}
 	// (i-b) sampled (file, position, substitution) over all bases of every channel
 	counts := [4]int{1500, 400, 400, 400}
 	if !quick {
